@@ -1365,7 +1365,7 @@ class LimitDeltas(Algo):
 
     def __call__(self, target):
         tw = target.temp["weights"]
-        all_keys = set(list(target.children.keys()) + list(tw.keys()))
+        all_keys = list(dict.fromkeys(list(target.children.keys()) + list(tw.keys())))
 
         for k in all_keys:
             tgt = tw[k] if k in tw else 0.0
